@@ -817,8 +817,8 @@ func (r *rows) Close() error { r.pos = 1 << 30; return nil }
 
 func (r *rows) Next(dest []driver.Value) error {
 	set := r.sets[r.cur]
-	if set.breakSet && r.pos >= set.breakAfter {
-		return set.breakErr
+	if set.breakSet && (r.pos >= set.breakAfter || r.pos >= len(set.rows)) {
+		return set.breakErr // also when the set is shorter: the stream never ends cleanly
 	}
 	if r.pos >= len(set.rows) {
 		return io.EOF
